@@ -30,6 +30,8 @@ type oconfig struct {
 	Script    backend.Script
 	Byz       map[uint16]*byzPlan // Byzantine nodes (must be callers, so that the session starts)
 	Outsiders []outsiderPlan
+	// Threshold: Scheme.Threshold when it is not len(Callers)-1 (key generation: every party takes part whatever the threshold)
+	Threshold int
 }
 
 // byzPlan describes a Byzantine participant built from real transmissions.
@@ -84,6 +86,9 @@ func newOWorld(cfg oconfig) *oworld {
 	sc.AllAtOnce = true
 	sc.Hold = true
 	thr := len(cfg.Callers) - 1
+	if cfg.Threshold > 0 {
+		thr = cfg.Threshold
+	}
 	w.c = cluster.New(cluster.Config{Map: cfg.Map, Threshold: thr, Barrier: !cfg.Silent, Silent: cfg.Silent, Script: sc})
 	w.c.Net.KeepData = true
 	for _, u := range cfg.Callers {
@@ -148,7 +153,11 @@ func newOWorld(cfg oconfig) *oworld {
 			if cfg.Sign {
 				_, err = s.Sign(ctx, []byte("digest-0123456789abcdef0123456789"), "sign-topic")
 			} else {
-				_, err = s.KeyGen(ctx, n, n-1)
+				kt := n - 1
+				if cfg.Threshold > 0 {
+					kt = cfg.Threshold
+				}
+				_, err = s.KeyGen(ctx, n, kt)
 			}
 			w.rmu.Lock()
 			w.results[u] = err
